@@ -18,7 +18,7 @@ import random
 from collections import Counter
 from pathlib import Path
 
-from . import common, c01_corpus, c01_driver, c01_findings, c01_sweep
+from . import common, c01_corpus, c01_driver, c01_findings, c01_hunt, c01_sweep
 
 PID = "C01"
 WITNESS_FILE = common.VERIF / "corpus" / "c01" / "witnesses.json"
@@ -54,7 +54,7 @@ def load_witnesses() -> dict:
 
 
 def build_corpus(tier: str, seed: int = 0, extra_seed=None):
-    """[(cid, family, src, [options])].  Quick tier: triggers + witnesses always, plus shard (seed mod 4) of the generated
+    """[(cid, family, src, [options])].  Quick tier: triggers + witnesses always, plus shard (seed mod 6) of the generated
     families and of the repository examples (every shard is quiet on the unchanged tree; thorough runs all of them).
     extra_seed: seeded random programs for the failing-input search only."""
     quick = tier == "quick"
@@ -70,7 +70,7 @@ def build_corpus(tier: str, seed: int = 0, extra_seed=None):
             add(f"data:{i}", "search", c01_corpus.data_program(i), pick_combos(i, 2))
         return out
     for k, (name, src) in enumerate(sorted(c01_corpus.TRIGGERS.items())):
-        add(f"trigger:{name}", "trigger", src, pick_combos(k, 2 if quick else 16))
+        add(f"trigger:{name}", "trigger", src, pick_combos(k + seed, 1 if quick else 16))
         if k % 3 == 0 or not quick:        # the same program without its final line terminator: the format_code wrapper path
             add(f"trigger:{name}:unterminated", "trigger", src.rstrip("\n"), pick_combos(k + 1, 1 if quick else 4))
     # every listed finding is exercised on every run (all witnesses, both tiers); the witness of a `fixed:` entry is a
@@ -81,8 +81,13 @@ def build_corpus(tier: str, seed: int = 0, extra_seed=None):
         out.append((f"{fam}:{fid}", fam, w["src"], [w["opts"]]))
         if not quick:
             add(f"{fam}:{fid}:all", fam, w["src"], pick_combos(k, 8))
+    # round 4: families over dimensions the hunters varied (harness/c01_hunt.py); small programs, all of them in both tiers
+    D = {"safe": False, "keep_imports": False, "use_preserve": False, "max_line_length": 100}
+    for k, (name, src) in enumerate(c01_hunt.all_programs()):
+        both = [D, dict(D, safe=True)]
+        add(f"hunt:{name}", "hunt", src, (both if name.startswith(("imports/", "star/")) or k % 4 == seed % 4 else [D]) if quick else both + pick_combos(k, 2))
     nflow, ndata = (240, 240) if quick else (600, 600)
-    shard = (lambda i: i % 4 == seed % 4) if quick else (lambda i: True)
+    shard = (lambda i: i % 6 == seed % 6) if quick else (lambda i: True)
     for i in range(nflow):
         if shard(i):
             add(f"flow:{i}", "flow", c01_corpus.flow_program(i), pick_combos(i, 2 if quick else 4))
@@ -198,7 +203,7 @@ def driver_correspondence(run, wd: Path, mods, rnd, hist: Counter):
     n_exh = len(cases)
     cases += c01_driver.special_cases(names)
     n_special = len(cases) - n_exh
-    cases += list(c01_driver.random_cases(rnd, names, 600 if quick else 6000))
+    cases += list(c01_driver.random_cases(rnd, names, 400 if quick else 6000))
     for c in cases[1:]:
         c01_driver.run_real(mods, c)
     dis = []
